@@ -10,7 +10,9 @@ EXPLANATION = (
     'failed instantiation or a failed file lookup leaves nothing in the instance cache or the factory table; '
     '(location) library-file location table: program directory when recorded, working directory otherwise, file '
     'present / absent; (errors-are-results) missing file and wrong-name outcomes are Err returns, the file reader '
-    'has no panicking call.')
+    'has no panicking call. The in-progress mark of an enclosing load survives every import declaration and load '
+    'inside it; the load table runs for every import-set form; no Result<_, io::Error> is turned into None / a '
+    'default / nothing.')
 NOT_DECIDED = ("that loading *succeeds* for every acyclic healthy graph; behaviour of the file system; the content "
                "of error messages.")
 
